@@ -133,7 +133,8 @@ def gen_cases(chk):
     n = chk.pick(300, 6000)
     for i in range(n):
         r = chk.rng("gen", i)
-        gp = genprob.generate(r)
+        # every fourth problem may hold lattice cells filled with a matrix of universes
+        gp = genprob.generate(r, features=genprob.DEFAULT_FEATURES | {"lattice"}) if i % 4 == 1 else genprob.generate(r)
         style = "random" if i % 2 else "plain"
         limit = 80 if i % 3 == 0 else 128
         text = genprob.render(gp, r, limit=limit, style=style, crlf=(i % 11 == 0), final_blank=(i % 7 != 0))
